@@ -25,6 +25,9 @@ pub struct Program {
     /// size of the key pool (0 = all keys); small pools make concurrent writers collide
     #[serde(default)]
     pub nkeys: u8,
+    /// 1 = counter-heavy values (COUNTER preset): registers mix counters and plain values
+    #[serde(default)]
+    pub flavor: u8,
 }
 
 // step kinds; lower = simpler (shrinking moves towards 0)
@@ -102,7 +105,7 @@ impl Step {
 impl Program {
     pub fn describe(&self) -> serde_json::Value {
         serde_json::json!({
-            "enc": self.enc, "nrep": self.nrep, "shared": self.shared, "nkeys": self.nkeys,
+            "enc": self.enc, "nrep": self.nrep, "shared": self.shared, "nkeys": self.nkeys, "flavor": self.flavor,
             "steps": self.steps.iter().map(|s| s.describe()).collect::<Vec<_>>()
         })
     }
@@ -166,6 +169,23 @@ pub const CONFLICT: Preset = &[
     (TEXT_PUT, 2),
     (FORK, 1),
     (RECORD_HEADS, 2),
+];
+
+/// counters conflicting with plain values in map keys and list elements, incremented, delivered in batches
+pub const COUNTER: Preset = &[
+    (LIST_PUT, 18),
+    (LIST_INCREMENT, 16),
+    (PUT, 12),
+    (INCREMENT, 12),
+    (MERGE, 16),
+    (COMMIT, 8),
+    (LIST_INSERT, 3),
+    (LIST_DELETE, 3),
+    (DELETE, 3),
+    (FORK, 1),
+    (RECORD_HEADS, 3),
+    (SAVE_LOAD, 1),
+    (APPLY, 2),
 ];
 
 /// text heavy
@@ -276,7 +296,7 @@ pub fn step_strategy(preset: Preset) -> impl Strategy<Value = Step> {
 
 pub fn program_strategy(preset: Preset, max_steps: usize, max_rep: u8, encs: u8) -> impl Strategy<Value = Program> {
     (0..encs.max(1), 1..=max_rep.max(1), prop::bool::weighted(0.8), prop::collection::vec(step_strategy(preset), 1..max_steps.max(2)))
-        .prop_map(move |(enc, nrep, shared, steps)| Program { enc, nrep, shared, steps, nkeys: if preset == CONFLICT { 3 } else { 0 } })
+        .prop_map(move |(enc, nrep, shared, steps)| Program { enc, nrep, shared, steps, nkeys: if preset == CONFLICT { 3 } else if preset == COUNTER { 2 } else { 0 }, flavor: (preset == COUNTER) as u8 })
 }
 
 /// Decode a program from raw fuzzer bytes (16 bytes per step after a 3-byte header).
@@ -301,5 +321,5 @@ pub fn program_from_bytes(data: &[u8], preset: Preset) -> Program {
             break;
         }
     }
-    Program { enc: hdr[0] % 4, nrep: 1 + hdr[1] % 4, shared: hdr[2] % 5 != 0, steps, nkeys: if preset == CONFLICT { 3 } else { 0 } }
+    Program { enc: hdr[0] % 4, nrep: 1 + hdr[1] % 4, shared: hdr[2] % 5 != 0, steps, nkeys: if preset == CONFLICT { 3 } else if preset == COUNTER { 2 } else { 0 }, flavor: (preset == COUNTER) as u8 }
 }
